@@ -3,7 +3,7 @@
    pin and [Print Assumptions].  [truthful min pt l e] (Proofs/C18.v) is the property's list:
    accuracy of the version / type-mismatch / truncated / too-large payloads, exactness for inputs
    shorter than the minimum, exactness for a length field that disagrees with the input length. *)
-From RtcpV Require Import Proofs.C18.
+From RtcpV Require Import Proofs.C18 Proofs.C18b.
 
 (* every typed parser: APP, BYE, RR, SDES, SR, transport and payload feedback *)
 Theorem C18_typed_parsers :
@@ -48,6 +48,21 @@ Check C18_compound :
   forall (l : bytes) (e : perr),
     compound_parse l = Err e -> exists ex ac, e = Truncated ex ac /\ ex > ac.
 Print Assumptions C18_compound.
+
+(* the compound parser's error carries the real length of the input, and an input shorter than one common
+   header is reported with exactly the minimum 4 *)
+Theorem C18_compound_exact :
+  forall (l : bytes) (e : perr),
+    compound_parse l = Err e ->
+    (exists ex, e = Truncated ex (length l) /\ ex > length l) /\
+    (length l < 4 -> e = Truncated 4 (length l)).
+Proof. exact compound_errors_exact. Qed.
+Check C18_compound_exact :
+  forall (l : bytes) (e : perr),
+    compound_parse l = Err e ->
+    (exists ex, e = Truncated ex (length l) /\ ex > length l) /\
+    (length l < 4 -> e = Truncated 4 (length l)).
+Print Assumptions C18_compound_exact.
 
 Theorem C18_report_block :
   forall (l : bytes) (e : perr),
